@@ -57,6 +57,7 @@ def run(prop, tier, replay=None):
     for i, j in enumerate(jobs):
         wk = vlib.Worker([exe] + j, tuple(j[:3]), timeout=1800, env={"VERIF_HASH_OUT": os.path.join(tmp, "%d.hash" % i)})
         wk.hash_path = os.path.join(tmp, "%d.hash" % i)
+        wk.case_is_args = True
         workers.append(wk)
     vlib.run_pool(workers)
     vlib.rerun_hung(chk, workers)
